@@ -197,24 +197,29 @@ class Program:
         return ci
 
     def _fill_class(self, ci, node):
+        def mangled(n):
+            if n.startswith("__") and not n.endswith("__"):
+                return "_" + ci.name.lstrip("_") + n
+            return n
         for st in node.body:
             if isinstance(st, (ast.FunctionDef, ast.AsyncFunctionDef)):
+                mname = mangled(st.name)
                 kinds = []
                 for d in st.decorator_list:
                     kinds.append(ast.unparse(d))
-                ci.decorators[st.name] = kinds
+                ci.decorators[mname] = kinds
                 if "property" in kinds or "abstractproperty" in kinds:
-                    ci.properties.setdefault(st.name, {})["get"] = st
+                    ci.properties.setdefault(mname, {})["get"] = st
                 elif any(k.endswith(".setter") for k in kinds):
-                    ci.properties.setdefault(st.name, {})["set"] = st
+                    ci.properties.setdefault(mname, {})["set"] = st
                 else:
-                    ci.methods[st.name] = st
+                    ci.methods[mname] = st
             elif isinstance(st, ast.Assign):
                 for t in st.targets:
                     if isinstance(t, ast.Name):
-                        ci.class_attrs[t.id] = st.value
+                        ci.class_attrs[mangled(t.id)] = st.value
             elif isinstance(st, ast.AnnAssign) and isinstance(st.target, ast.Name) and st.value is not None:
-                ci.class_attrs[st.target.id] = st.value
+                ci.class_attrs[mangled(st.target.id)] = st.value
             elif isinstance(st, ast.ClassDef):
                 ci.class_attrs[st.name] = st    # nested class (e.g. Meta); evaluated by interpreter
 
